@@ -1230,6 +1230,22 @@ func (e *Engine) invariantsOfValue(st *State, v Value, t types.Type, label strin
 			return nil
 		}
 		return e.invariantsAt(st, p.reg, p.path, subType(p.reg.typ, p.path), label)
+	case *SliceVal:
+		// a slice of pointers of known length over an expanded region: the invariants of every element
+		if p.reg == nil || p.reg.dyn || !p.length.IsConst() || !p.off.IsConst() {
+			return nil
+		}
+		pt, ok := underlying(p.elem).(*types.Pointer)
+		if !ok {
+			return nil
+		}
+		var out []invInst
+		for i := int64(0); i < p.length.Val.Int64(); i++ {
+			if ev, ok := st.mem.cells[pathKey(p.reg.id, extend(p.path, int(p.off.Val.Int64()+i)))].(*PtrVal); ok {
+				out = append(out, e.invariantsOfValue(st, ev, pt, fmt.Sprintf("%s[%d]", label, i))...)
+			}
+		}
+		return out
 	case *IfaceVal:
 		// an interface value of known dynamic type: the invariants of the object inside
 		if p.dyn != nil && p.val != nil {
